@@ -250,7 +250,10 @@ func (d *Decoder) readTypedList(tag byte) (interface{}, error) {
 
 		v := EnsureRawValue(item)
 		if isVariableArr {
-			aryValue = reflect.Append(aryValue, v)
+			// convert like a fixed-length element (int32 -> int16, *T -> T, ...)
+			elem := reflect.New(aryType.Elem()).Elem()
+			SetValue(elem, v)
+			aryValue = reflect.Append(aryValue, elem)
 			holder.change(aryValue)
 		} else {
 			SetValue(aryValue.Index(j), v)
@@ -305,7 +308,12 @@ func (d *Decoder) readUntypedList(tag byte) (interface{}, error) {
 		}
 
 		if isVariableArr {
-			aryValue = reflect.Append(aryValue, EnsureRawValue(it))
+			elem := EnsureRawValue(it)
+			if !elem.IsValid() {
+				// a null element
+				elem = reflect.Zero(aryValue.Type().Elem())
+			}
+			aryValue = reflect.Append(aryValue, elem)
 			holder.change(aryValue)
 		} else {
 			// a reference arrives wrapped in a reflect.Value / ref holder
